@@ -177,12 +177,9 @@ theorem keys_freshFrom (o : Nat) (xs : List α) :
   | cons e t ih =>
     simp only [freshFrom, keys_cons, ih, List.length_cons, List.range_succ_eq_map, List.map_cons, List.map_map]
     congr 1
-    · simp
-    · apply List.map_congr_left
-      intro i _
-      simp only [Function.comp]
-      push_cast
-      omega
+    simp
+    intro a _
+    omega
 
 theorem freshFrom_append (o : Nat) (xs ys : List α) :
     freshFrom o (xs ++ ys) = freshFrom o xs ++ freshFrom (o + xs.length) ys := by
@@ -237,8 +234,6 @@ theorem shift_fresh (n : Nat) (xs : List α) : shift (n : Int) (fresh xs) = fres
     simp only [freshFrom, shift, List.map_cons] at *
     rw [ih (o + 1)]
     congr 2
-    push_cast
-    omega
 
 theorem nodupKeys_freshFrom (o : Nat) (xs : List α) : NodupKeys (freshFrom o xs) := by
   unfold NodupKeys
